@@ -145,6 +145,11 @@ def eq_call(t):
     return None
 
 
+def eq_self_type(t):
+    """textual type(s) compared by a PartialEq call term: callee path plus its generic arguments"""
+    return t[1] + " " + " ".join(t[2]) if is_call(t) else ""
+
+
 def str_eq_lit(t):
     """cond term is `x == "lit"` (either side); returns (negated, x, lit)"""
     e = eq_call(t)
